@@ -431,3 +431,234 @@ Example C15_witness :
   wit_check (smap (fun _ => QLemmas.gq_conj) main_wit_sols) = true
   /\ negb (Exec.teqb 4 2 2 (SemExec.tsol (smap (fun _ => QLemmas.gq_conj) main_wit_sols) "U") (SemExec.tsol main_wit_sols "U")) = true.
 Proof. exact (Logic.conj wit_conj wit_changed). Qed.
+
+(** * Non-Hermitian mode (hermitian=False, program [nonhermitian_alg])
+
+    The covariance relations for ANY solutions of the generated non-Hermitian program.  Named _partial
+    because of one extra hypothesis on both sides: kept matrix elements connect equal unperturbed
+    energies ([kept_equal]; the hypothesis for the transformed problem follows from it in every case
+    below).  Outside this class the non-Hermitian program does not satisfy its own defining
+    conditions (known finding C05-kept-distinct-energies) and uniqueness cannot be applied; the
+    oracle tests the relations there as well.  Not assumed: real energies, Hermitian input, a
+    unitary rotation (R only has to be invertible), real shift / scale.  [U†] names the third
+    output (U_inv).  Conjugation maps the problem for H to the problem for conj H, whose
+    unperturbed energies are conj E. *)
+From PV.Alg Require Import UniqueNH NonHerm.
+From PV.Series Require Import SymNH SymNHInst.
+
+(** entry-wise conjugation: energies conj E, same solver (assumed compatible with conj) *)
+Theorem C15_conjugation_nh_partial :
+  forall (D k : nat) (R0 : Type) (r0 r1 : R0) (add mul sub : R0 -> R0 -> R0) (opp : R0 -> R0) (req : R0 -> R0 -> Prop)
+         (Ro : @Ring_ops R0 r0 r1 add mul sub opp req) (Rg : @Ring R0 r0 r1 add mul sub opp req Ro) (CS : CStar R0)
+         (blk : nat -> nat) (keep : nat -> nat -> bool) (cm : nat -> bool)
+         (keep_sym : forall p q, keep p q = keep q p) (keep_refl : forall p, keep p p = true)
+         (keep_blk : forall p q, keep p q = true -> blk p = blk q) (cm_blk : forall p q, blk p = blk q -> cm p = cm q)
+         (E : nat -> R0) (inv : R0 -> R0)
+         (inv_spec : forall p q, (p < D)%nat -> (q < D)%nat -> keep p q = false -> (E p - E q) * inv (E p - E q) == 1)
+         (kept_equal : forall p q, (p < D)%nat -> (q < D)%nat -> keep p q = true -> E p == E q)
+         (inv_P : Proper (_==_ ==> _==_) inv) (inv_conj : forall x, conj (inv x) == inv (conj x)),
+    let BAs := series_BlockAlg D k blk keep cm keep_sym keep_blk cm_blk in
+    let BAt := series_BlockAlg D k blk keep cm keep_sym keep_blk cm_blk in
+    forall (gflag gflag' : string -> bool)
+           (rflag : string -> T D k R0 -> T D k R0) (fenv : string -> list (T D k R0) -> T D k R0)
+           (rflag' : string -> T D k R0 -> T D k R0) (fenv' : string -> list (T D k R0) -> T D k R0)
+           (sol : string -> T D k R0) (sol' : string -> T D k R0),
+    (forall y, fenv "solve_sylvester" (cons y nil) == SylvInst.sylv E inv y) ->
+    (forall y, fenv' "solve_sylvester" (cons y nil) == SylvInst.sylv (E_conj E) inv y) ->
+    solution (BA := BAs) gflag rflag fenv sol nonhermitian_alg ->
+    solution (BA := BAt) gflag' rflag' fenv' sol' nonhermitian_alg ->
+    Zc (BlockAlg := BAs) (sol "H") == SylvInst.H0 D k E ->
+    sol' "H" == cconj D k (sol "H") ->
+    sol' "U" == cconj D k (sol "U") /\ sol' "U†" == cconj D k (sol "U†")
+    /\ sol' "H_tilde" == cconj D k (sol "H_tilde").
+Proof.
+  intros D k R0 r0 r1 add mul sub opp req Ro Rg CS blk keep cm keep_sym keep_refl keep_blk cm_blk E inv inv_spec kept_equal inv_P inv_conj BAs BAt gflag gflag' rflag fenv rflag' fenv' sol sol' Hfe Hfe' Hsol Hsol' Hz Hin.
+  exact (conj_nh D k blk keep cm keep_sym keep_refl keep_blk cm_blk E inv inv_spec kept_equal inv_P inv_conj gflag gflag' rflag fenv rflag' fenv' Hfe Hfe' sol sol' Hsol Hsol' Hz Hin).
+Qed.
+Print Assumptions C15_conjugation_nh_partial.
+
+(** basis permutation, target labels blk' / cm' arbitrary but compatible with the transported mask (pi = id: block relabelling) *)
+Theorem C15_basis_perm_nh_partial :
+  forall (D k : nat) (R0 : Type) (r0 r1 : R0) (add mul sub : R0 -> R0 -> R0) (opp : R0 -> R0) (req : R0 -> R0 -> Prop)
+         (Ro : @Ring_ops R0 r0 r1 add mul sub opp req) (Rg : @Ring R0 r0 r1 add mul sub opp req Ro) (CS : CStar R0)
+         (blk : nat -> nat) (keep : nat -> nat -> bool) (cm : nat -> bool)
+         (keep_sym : forall p q, keep p q = keep q p) (keep_refl : forall p, keep p p = true)
+         (keep_blk : forall p q, keep p q = true -> blk p = blk q) (cm_blk : forall p q, blk p = blk q -> cm p = cm q)
+         (E : nat -> R0) (inv : R0 -> R0)
+         (inv_spec : forall p q, (p < D)%nat -> (q < D)%nat -> keep p q = false -> (E p - E q) * inv (E p - E q) == 1)
+         (kept_equal : forall p q, (p < D)%nat -> (q < D)%nat -> keep p q = true -> E p == E q)
+         (pi pinv : nat -> nat) (pi_lt : forall p, (p < D)%nat -> (pi p < D)%nat) (pinv_lt : forall p, (p < D)%nat -> (pinv p < D)%nat)
+         (pinv_pi : forall p, (p < D)%nat -> pinv (pi p) = p) (pi_pinv : forall p, (p < D)%nat -> pi (pinv p) = p)
+         (blk' : nat -> nat) (cm' : nat -> bool)
+         (keep_blk' : forall p q, keep_pi keep pi p q = true -> blk' p = blk' q)
+         (cm_blk' : forall p q, blk' p = blk' q -> cm' p = cm' q),
+    let BAs := series_BlockAlg D k blk keep cm keep_sym keep_blk cm_blk in
+    let BAt := series_BlockAlg D k blk' (keep_pi keep pi) cm' (keep_pi_sym keep keep_sym pi) keep_blk' cm_blk' in
+    forall (gflag gflag' : string -> bool)
+           (rflag : string -> T D k R0 -> T D k R0) (fenv : string -> list (T D k R0) -> T D k R0)
+           (rflag' : string -> T D k R0 -> T D k R0) (fenv' : string -> list (T D k R0) -> T D k R0)
+           (sol : string -> T D k R0) (sol' : string -> T D k R0),
+    (forall y, fenv "solve_sylvester" (cons y nil) == SylvInst.sylv E inv y) ->
+    (forall y, fenv' "solve_sylvester" (cons y nil) == SylvInst.sylv (E_pi pi E) inv y) ->
+    solution (BA := BAs) gflag rflag fenv sol nonhermitian_alg ->
+    solution (BA := BAt) gflag' rflag' fenv' sol' nonhermitian_alg ->
+    Zc (BlockAlg := BAs) (sol "H") == SylvInst.H0 D k E ->
+    sol' "H" == sperm D k pi (sol "H") ->
+    sol' "U" == sperm D k pi (sol "U") /\ sol' "U†" == sperm D k pi (sol "U†")
+    /\ sol' "H_tilde" == sperm D k pi (sol "H_tilde").
+Proof.
+  intros D k R0 r0 r1 add mul sub opp req Ro Rg CS blk keep cm keep_sym keep_refl keep_blk cm_blk E inv inv_spec kept_equal pi pinv pi_lt pinv_lt pinv_pi pi_pinv blk' cm' keep_blk' cm_blk' BAs BAt gflag gflag' rflag fenv rflag' fenv' sol sol' Hfe Hfe' Hsol Hsol' Hz Hin.
+  exact (perm_nh D k blk keep cm keep_sym keep_refl keep_blk cm_blk E inv inv_spec kept_equal pi pinv pi_lt pinv_lt pinv_pi pi_pinv blk' cm' keep_blk' cm_blk' gflag gflag' rflag fenv rflag' fenv' Hfe Hfe' sol sol' Hsol Hsol' Hz Hin).
+Qed.
+Print Assumptions C15_basis_perm_nh_partial.
+
+(** rotation by an invertible R (inverse Ri) commuting with the kept mask and with H_0: (rotg R Ri x) n = Ri * x n * R *)
+Theorem C15_degenerate_rotation_nh_partial :
+  forall (D k : nat) (R0 : Type) (r0 r1 : R0) (add mul sub : R0 -> R0 -> R0) (opp : R0 -> R0) (req : R0 -> R0 -> Prop)
+         (Ro : @Ring_ops R0 r0 r1 add mul sub opp req) (Rg : @Ring R0 r0 r1 add mul sub opp req Ro) (CS : CStar R0)
+         (blk : nat -> nat) (keep : nat -> nat -> bool) (cm : nat -> bool)
+         (keep_sym : forall p q, keep p q = keep q p) (keep_refl : forall p, keep p p = true)
+         (keep_blk : forall p q, keep p q = true -> blk p = blk q) (cm_blk : forall p q, blk p = blk q -> cm p = cm q)
+         (E : nat -> R0) (inv : R0 -> R0)
+         (inv_spec : forall p q, (p < D)%nat -> (q < D)%nat -> keep p q = false -> (E p - E q) * inv (E p - E q) == 1)
+         (kept_equal : forall p q, (p < D)%nat -> (q < D)%nat -> keep p q = true -> E p == E q)
+         (R Ri : mat D R0) (RiR : Ri * R == 1) (RRi : R * Ri == 1)
+         (R_mask : forall y : mat D R0, mmask keep (Ri * y * R) == Ri * mmask keep y * R)
+         (R_H0 : Ri * mdiag D E * R == mdiag D E),
+    let BAs := series_BlockAlg D k blk keep cm keep_sym keep_blk cm_blk in
+    let BAt := series_BlockAlg D k blk keep cm keep_sym keep_blk cm_blk in
+    forall (gflag gflag' : string -> bool)
+           (rflag : string -> T D k R0 -> T D k R0) (fenv : string -> list (T D k R0) -> T D k R0)
+           (rflag' : string -> T D k R0 -> T D k R0) (fenv' : string -> list (T D k R0) -> T D k R0)
+           (sol : string -> T D k R0) (sol' : string -> T D k R0),
+    (forall y, fenv "solve_sylvester" (cons y nil) == SylvInst.sylv E inv y) ->
+    (forall y, fenv' "solve_sylvester" (cons y nil) == SylvInst.sylv E inv y) ->
+    solution (BA := BAs) gflag rflag fenv sol nonhermitian_alg ->
+    solution (BA := BAt) gflag' rflag' fenv' sol' nonhermitian_alg ->
+    Zc (BlockAlg := BAs) (sol "H") == SylvInst.H0 D k E ->
+    sol' "H" == rotg D k R Ri (sol "H") ->
+    sol' "U" == rotg D k R Ri (sol "U") /\ sol' "U†" == rotg D k R Ri (sol "U†")
+    /\ sol' "H_tilde" == rotg D k R Ri (sol "H_tilde").
+Proof.
+  intros D k R0 r0 r1 add mul sub opp req Ro Rg CS blk keep cm keep_sym keep_refl keep_blk cm_blk E inv inv_spec kept_equal R Ri RiR RRi R_mask R_H0 BAs BAt gflag gflag' rflag fenv rflag' fenv' sol sol' Hfe Hfe' Hsol Hsol' Hz Hin.
+  exact (rot_nh D k blk keep cm keep_sym keep_refl keep_blk cm_blk E inv inv_spec kept_equal R Ri RiR RRi R_mask R_H0 gflag gflag' rflag rflag' fenv fenv' Hfe Hfe' sol sol' Hsol Hsol' Hz Hin).
+Qed.
+Print Assumptions C15_degenerate_rotation_nh_partial.
+
+(** shift of H_0 by c * 1, c arbitrary *)
+Theorem C15_shift_nh_partial :
+  forall (D k : nat) (R0 : Type) (r0 r1 : R0) (add mul sub : R0 -> R0 -> R0) (opp : R0 -> R0) (req : R0 -> R0 -> Prop)
+         (Ro : @Ring_ops R0 r0 r1 add mul sub opp req) (Rg : @Ring R0 r0 r1 add mul sub opp req Ro) (CS : CStar R0)
+         (blk : nat -> nat) (keep : nat -> nat -> bool) (cm : nat -> bool)
+         (keep_sym : forall p q, keep p q = keep q p) (keep_refl : forall p, keep p p = true)
+         (keep_blk : forall p q, keep p q = true -> blk p = blk q) (cm_blk : forall p q, blk p = blk q -> cm p = cm q)
+         (E : nat -> R0) (inv : R0 -> R0)
+         (inv_spec : forall p q, (p < D)%nat -> (q < D)%nat -> keep p q = false -> (E p - E q) * inv (E p - E q) == 1)
+         (kept_equal : forall p q, (p < D)%nat -> (q < D)%nat -> keep p q = true -> E p == E q)
+         (c : R0) (inv_P : Proper (_==_ ==> _==_) inv),
+    let BAs := series_BlockAlg D k blk keep cm keep_sym keep_blk cm_blk in
+    let BAt := series_BlockAlg D k blk keep cm keep_sym keep_blk cm_blk in
+    forall (gflag gflag' : string -> bool)
+           (rflag : string -> T D k R0 -> T D k R0) (fenv : string -> list (T D k R0) -> T D k R0)
+           (rflag' : string -> T D k R0 -> T D k R0) (fenv' : string -> list (T D k R0) -> T D k R0)
+           (sol : string -> T D k R0) (sol' : string -> T D k R0),
+    (forall y, fenv "solve_sylvester" (cons y nil) == SylvInst.sylv E inv y) ->
+    (forall y, fenv' "solve_sylvester" (cons y nil) == SylvInst.sylv (fun p => E p + c) inv y) ->
+    solution (BA := BAs) gflag rflag fenv sol nonhermitian_alg ->
+    solution (BA := BAt) gflag' rflag' fenv' sol' nonhermitian_alg ->
+    Zc (BlockAlg := BAs) (sol "H") == SylvInst.H0 D k E ->
+    sol' "H" == sol "H" + cst D k c ->
+    sol' "U" == sol "U" /\ sol' "U†" == sol "U†" /\ sol' "H_tilde" == sol "H_tilde" + cst D k c.
+Proof.
+  intros D k R0 r0 r1 add mul sub opp req Ro Rg CS blk keep cm keep_sym keep_refl keep_blk cm_blk E inv inv_spec kept_equal c inv_P BAs BAt gflag gflag' rflag fenv rflag' fenv' sol sol' Hfe Hfe' Hsol Hsol' Hz Hin.
+  exact (shift_nh D k blk keep cm keep_sym keep_refl keep_blk cm_blk E inv inv_spec kept_equal gflag gflag' rflag rflag' fenv fenv' Hfe sol sol' Hsol Hsol' Hz c inv_P Hfe' Hin).
+Qed.
+Print Assumptions C15_shift_nh_partial.
+
+(** scaling of the whole Hamiltonian by a central scalar s; inv' inverts the scaled eliminated differences *)
+Theorem C15_scale_nh_partial :
+  forall (D k : nat) (R0 : Type) (r0 r1 : R0) (add mul sub : R0 -> R0 -> R0) (opp : R0 -> R0) (req : R0 -> R0 -> Prop)
+         (Ro : @Ring_ops R0 r0 r1 add mul sub opp req) (Rg : @Ring R0 r0 r1 add mul sub opp req Ro) (CS : CStar R0)
+         (blk : nat -> nat) (keep : nat -> nat -> bool) (cm : nat -> bool)
+         (keep_sym : forall p q, keep p q = keep q p) (keep_refl : forall p, keep p p = true)
+         (keep_blk : forall p q, keep p q = true -> blk p = blk q) (cm_blk : forall p q, blk p = blk q -> cm p = cm q)
+         (E : nat -> R0) (inv : R0 -> R0)
+         (inv_spec : forall p q, (p < D)%nat -> (q < D)%nat -> keep p q = false -> (E p - E q) * inv (E p - E q) == 1)
+         (kept_equal : forall p q, (p < D)%nat -> (q < D)%nat -> keep p q = true -> E p == E q)
+         (s : R0) (inv' : R0 -> R0)
+         (inv_spec' : forall p q, (p < D)%nat -> (q < D)%nat -> keep p q = false -> (s * E p - s * E q) * inv' (s * E p - s * E q) == 1),
+    let BAs := series_BlockAlg D k blk keep cm keep_sym keep_blk cm_blk in
+    let BAt := series_BlockAlg D k blk keep cm keep_sym keep_blk cm_blk in
+    forall (gflag gflag' : string -> bool)
+           (rflag : string -> T D k R0 -> T D k R0) (fenv : string -> list (T D k R0) -> T D k R0)
+           (rflag' : string -> T D k R0 -> T D k R0) (fenv' : string -> list (T D k R0) -> T D k R0)
+           (sol : string -> T D k R0) (sol' : string -> T D k R0),
+    (forall y, fenv "solve_sylvester" (cons y nil) == SylvInst.sylv E inv y) ->
+    (forall y, fenv' "solve_sylvester" (cons y nil) == SylvInst.sylv (fun p => s * E p) inv' y) ->
+    solution (BA := BAs) gflag rflag fenv sol nonhermitian_alg ->
+    solution (BA := BAt) gflag' rflag' fenv' sol' nonhermitian_alg ->
+    Zc (BlockAlg := BAs) (sol "H") == SylvInst.H0 D k E ->
+    sol' "H" == cst D k s * sol "H" ->
+    sol' "U" == sol "U" /\ sol' "U†" == sol "U†" /\ sol' "H_tilde" == cst D k s * sol "H_tilde".
+Proof.
+  intros D k R0 r0 r1 add mul sub opp req Ro Rg CS blk keep cm keep_sym keep_refl keep_blk cm_blk E inv inv_spec kept_equal s inv' inv_spec' BAs BAt gflag gflag' rflag fenv rflag' fenv' sol sol' Hfe Hfe' Hsol Hsol' Hz Hin.
+  exact (hscale_nh D k blk keep cm keep_sym keep_refl keep_blk cm_blk E inv inv_spec kept_equal gflag gflag' rflag rflag' fenv fenv' Hfe sol sol' Hsol Hsol' Hz s inv' inv_spec' Hfe' Hin).
+Qed.
+Print Assumptions C15_scale_nh_partial.
+
+(** direct sum of two decoupled non-Hermitian problems *)
+Theorem C15_direct_sum_nh_partial :
+  forall (D1 D2 k : nat) (R0 : Type) (r0 r1 : R0) (add mul sub : R0 -> R0 -> R0) (opp : R0 -> R0) (req : R0 -> R0 -> Prop)
+         (Ro : @Ring_ops R0 r0 r1 add mul sub opp req) (Rg : @Ring R0 r0 r1 add mul sub opp req Ro) (CS : CStar R0)
+         (blk1 blk2 : nat -> nat) (keep1 keep2 : nat -> nat -> bool) (cm1 cm2 : nat -> bool)
+         (keep_sym1 : forall p q, keep1 p q = keep1 q p) (keep_sym2 : forall p q, keep2 p q = keep2 q p)
+         (keep_refl1 : forall p, keep1 p p = true) (keep_refl2 : forall p, keep2 p p = true)
+         (keep_blk1 : forall p q, keep1 p q = true -> blk1 p = blk1 q) (keep_blk2 : forall p q, keep2 p q = true -> blk2 p = blk2 q)
+         (cm_blk1 : forall p q, blk1 p = blk1 q -> cm1 p = cm1 q) (cm_blk2 : forall p q, blk2 p = blk2 q -> cm2 p = cm2 q)
+         (E1 E2 : nat -> R0) (inv : R0 -> R0)
+         (inv_specS : forall p q, (p < D1 + D2)%nat -> (q < D1 + D2)%nat -> keepS D1 keep1 keep2 p q = false ->
+                        (ES D1 E1 E2 p - ES D1 E1 E2 q) * inv (ES D1 E1 E2 p - ES D1 E1 E2 q) == 1)
+         (kept_equal1 : forall p q, (p < D1)%nat -> (q < D1)%nat -> keep1 p q = true -> E1 p == E1 q)
+         (kept_equal2 : forall p q, (p < D2)%nat -> (q < D2)%nat -> keep2 p q = true -> E2 p == E2 q),
+    let B1 := series_BlockAlg D1 k blk1 keep1 cm1 keep_sym1 keep_blk1 cm_blk1 in
+    let B2 := series_BlockAlg D2 k blk2 keep2 cm2 keep_sym2 keep_blk2 cm_blk2 in
+    let BS := series_BlockAlg (D1 + D2) k (blkS D1 blk1 blk2) (keepS D1 keep1 keep2) (cmS D1 cm1 cm2)
+                (keepS_sym D1 keep1 keep2 keep_sym1 keep_sym2) (keepS_blk D1 blk1 blk2 keep1 keep2 keep_blk1 keep_blk2)
+                (cmS_blk D1 blk1 blk2 cm1 cm2 cm_blk1 cm_blk2) in
+    forall (gflag1 gflag2 gflagS : string -> bool)
+           (rflag1 : string -> T D1 k R0 -> T D1 k R0) (fenv1 : string -> list (T D1 k R0) -> T D1 k R0)
+           (rflag2 : string -> T D2 k R0 -> T D2 k R0) (fenv2 : string -> list (T D2 k R0) -> T D2 k R0)
+           (rflagS : string -> T (D1 + D2) k R0 -> T (D1 + D2) k R0) (fenvS : string -> list (T (D1 + D2) k R0) -> T (D1 + D2) k R0),
+    (forall y, fenv1 "solve_sylvester" (cons y nil) == SylvInst.sylv E1 inv y) ->
+    (forall y, fenv2 "solve_sylvester" (cons y nil) == SylvInst.sylv E2 inv y) ->
+    (forall y, fenvS "solve_sylvester" (cons y nil) == SylvInst.sylv (ES D1 E1 E2) inv y) ->
+    forall (sol1 : string -> T D1 k R0) (sol2 : string -> T D2 k R0) (solS : string -> T (D1 + D2) k R0),
+    solution (BA := B1) gflag1 rflag1 fenv1 sol1 nonhermitian_alg ->
+    solution (BA := B2) gflag2 rflag2 fenv2 sol2 nonhermitian_alg ->
+    solution (BA := BS) gflagS rflagS fenvS solS nonhermitian_alg ->
+    Zc (BlockAlg := B1) (sol1 "H") == SylvInst.H0 D1 k E1 -> Zc (BlockAlg := B2) (sol2 "H") == SylvInst.H0 D2 k E2 ->
+    solS "H" == osum D1 D2 k (sol1 "H") (sol2 "H") ->
+    solS "U" == osum D1 D2 k (sol1 "U") (sol2 "U") /\ solS "U†" == osum D1 D2 k (sol1 "U†") (sol2 "U†")
+    /\ solS "H_tilde" == osum D1 D2 k (sol1 "H_tilde") (sol2 "H_tilde").
+Proof.
+  intros D1 D2 k R0 r0 r1 add mul sub opp req Ro Rg CS blk1 blk2 keep1 keep2 cm1 cm2 keep_sym1 keep_sym2 keep_refl1 keep_refl2
+         keep_blk1 keep_blk2 cm_blk1 cm_blk2 E1 E2 inv inv_specS ke1 ke2 B1 B2 BS gflag1 gflag2 gflagS
+         rflag1 fenv1 rflag2 fenv2 rflagS fenvS Hf1 Hf2 HfS sol1 sol2 solS Hs1 Hs2 HsS Hz1 Hz2 Hin.
+  exact (direct_sum_nh D1 D2 k blk1 blk2 keep1 keep2 cm1 cm2 keep_sym1 keep_sym2 keep_refl1 keep_refl2
+           keep_blk1 keep_blk2 cm_blk1 cm_blk2 E1 E2 inv inv_specS ke1 ke2 gflag1 gflag2 gflagS
+           rflag1 fenv1 rflag2 fenv2 rflagS fenvS Hf1 Hf2 HfS sol1 sol2 solS Hs1 Hs2 HsS Hz1 Hz2 Hin).
+Qed.
+Print Assumptions C15_direct_sum_nh_partial.
+
+(** non-vacuity: [kept_equal] holds for a degenerate example (3 states, blocks {0,1} | {2}, energies
+    1, 1, 2, everything inside the blocks kept), where the swap of the states 0 and 1 is an invertible R
+    with the mask property, and the conjugation / basis-permutation maps are [SGHom]s *)
+Example C15_nh_applies :
+  (forall p q, (p < 3)%nat -> (q < 3)%nat -> ex_keep p q = true -> ex_Ed p == ex_Ed q)
+  /\ (forall p q, (p < 3)%nat -> (q < 3)%nat -> ex_keep p q = false ->
+                  (ex_Ed p - ex_Ed q) * ex_inv (ex_Ed p - ex_Ed q) == 1)
+  /\ SGHom (BA := ex_BA) (BA' := ex_BA) (cconj 3 2).
+Proof.
+  split. exact ex_Ed_kept_equal. split. exact ex_Ed_inv_spec.
+  apply LAHom_SGHom. exact (cconj_LAHom 3 2 ex_blk ex_keep ex_cm ex_keep_sym ex_keep_blk ex_cm_blk).
+Qed.
